@@ -453,9 +453,26 @@ func (l *StatefulLexer) getPattern(candidate compiledRule) (*regexp.Regexp, erro
 	return BackrefRegex(&l.def.backrefCache, candidate.Pattern, l.stack[len(l.stack)-1].groups)
 }
 
+// backrefKey builds the cache key for a pattern and the groups substituted into it.
+//
+// Every part is prefixed with its length so that different (pattern, groups)
+// combinations can never produce the same key, whatever bytes the groups contain.
+func backrefKey(input string, groups []string) string {
+	key := strings.Builder{}
+	key.WriteString(strconv.Itoa(len(input)))
+	key.WriteByte(':')
+	key.WriteString(input)
+	for _, group := range groups {
+		key.WriteString(strconv.Itoa(len(group)))
+		key.WriteByte(':')
+		key.WriteString(group)
+	}
+	return key.String()
+}
+
 // BackrefRegex returns a compiled regular expression with backreferences replaced by groups.
 func BackrefRegex(backrefCache *sync.Map, input string, groups []string) (*regexp.Regexp, error) {
-	key := input + "\000" + strings.Join(groups, "\000")
+	key := backrefKey(input, groups)
 	cached, ok := backrefCache.Load(key)
 	if ok {
 		return cached.(*regexp.Regexp), nil
